@@ -66,14 +66,22 @@ def clause1_fini(ctx, P, cg):
         ctx.ob("C05.1 R-FINI", fpr, "field:" + fld, fld in released,
                "peer.%s receives an owned resource (at %s) but the peer destructor never releases it" % (fld, owned[fld][0].loc))
     seq = [P.srcname_of(i.callee) for i in fpr.all_insts() if i.op == "call" and i.callee]
+    # (a step may have been folded into the destructor by hand: then the call it consisted of stands for it)
+    BODY = {"remove_peer_from_routes": "remove_peer_from_routing_table"}
     for need in ("remove_routing_info_from_peer", "remove_peer_from_routes", "remove_all_fetchers_from_peer",
                  "remove_all_elements_from_peer", "delete_routing_table", "list_del"):
-        ctx.ob("C05.1 R-FINI", fpr, "step:" + need, need in seq and len(Q.path_views(ctx, P, fpr)) >= 1 and
-               all(need in [P.srcname_of(i.callee) for _, i in v.calls() if i.callee] for v in Q.path_views(ctx, P, fpr)),
+        nm = need if (need in seq or need not in BODY or P.by_src.get(need)) else BODY[need]
+        views_ = Q.path_views(ctx, P, fpr)
+        on_all = need == nm and all(nm in [P.srcname_of(i.callee) for _, i in v.calls() if i.callee] for v in views_)
+        in_loop = need != nm and nm in seq     # the folded loop body: the every-item rule below decides the loop
+        ctx.ob("C05.1 R-FINI", fpr, "step:" + need, nm in seq and len(views_) >= 1 and (on_all or in_loop),
                "peer teardown does not perform %s on every path" % need)
     # the two sweeps answer with the right verb
     rip = P.fn("router.c:remove_routing_info_from_peer")
-    ctx.ob("C05.1 R-FINI", rip, "routed-to-it-answered", _reaches(P, cg, rip.name, {"send_shutdown_response"}),
+    answered = _reaches(P, cg, rip.name, {"send_shutdown_response"}) or \
+        (_reaches(P, cg, rip.name, {"create_error_response", "create_error_response_from_request"}) and
+         _reaches(P, cg, rip.name, {"format_and_send_response"}))
+    ctx.ob("C05.1 R-FINI", rip, "routed-to-it-answered", answered,
            "requests routed to the leaving peer are not answered with an error")
     # teardown loops act on EVERY item: the action call dominates the loop latch (no conditional skip)
     for key, action in (("peer.c:remove_peer_from_routes", "remove_peer_from_routing_table"),
@@ -81,9 +89,13 @@ def clause1_fini(ctx, P, cg):
                         ("element.c:remove_all_elements_from_peer", "remove_element"),
                         ("fetch.c:remove_fetch_from_states", "remove_fetch_from_states_in_peer"),
                         ("fetch.c:remove_fetch_from_states_in_peer", "remove_fetch_from_state")):
-        g = P.fn(key)
-        loops = g.loops()
+        g = P.fn(key, required=False)
+        if g is None and key == "peer.c:remove_peer_from_routes":
+            g = fpr      # folded into the destructor by hand
+        if g is None:
+            g = P.fn(key)
         cs = g.calls(action)
+        loops = {h: body for h, body in g.loops().items() if any(c.block in body for c in cs)}
         ok = len(loops) == 1 and len(cs) >= 1
         if ok:
             (h, body), = loops.items()
